@@ -41,6 +41,16 @@ func main() {
 		}
 		os.Exit(checks.Replay(os.Args[2], seed))
 	}
+	if cmd == "selftest" {
+		ctx, err := checks.NewCtx("selftest", tier, seed)
+		if err != nil {
+			fmt.Fprintln(os.Stderr, "infrastructure error:", err)
+			os.Exit(2)
+		}
+		code := checks.Selftest(ctx)
+		ctx.Cleanup()
+		os.Exit(code)
+	}
 	f, ok := checks.Registry[cmd]
 	if !ok {
 		fmt.Fprintln(os.Stderr, "unknown check", cmd)
